@@ -6,5 +6,5 @@ GROUP = {
     # assertion reach checks off (measured 2.5x faster): vacuity is guarded by kani::cover! in every harness and by the mutant twins
     "kani_args": ["-Z", "stubbing", "--no-assertion-reach-checks"],
     "recursion_caps": [(r"value_bag::internal::cast.*CastVisitor.*::fill", 3)],
-    "modules": ["util", "env", "c02_alloc", "c16_owned", "c03_unwind", "c20_slot", "c17_pathmap"],
+    "modules": ["util", "env", "c02_alloc", "c16_owned", "c03_unwind", "c03_wrappers", "c20_slot", "c17_pathmap"],
 }
